@@ -705,22 +705,27 @@ func (c *fnCtx) execAppend(st *State, cc *ssa.CallCommon, rt types.Type, pos tok
 	for i, l := range locs {
 		srt := c.sortOf(l.k, l.t)
 		old := c.comp(st, l.comp, srt)
-		if single != nil && !c.bv {
+		if single != nil {
 			fl := flatten(*single)
 			// new row: in the fresh case copy the old row element-wise is not expressible without
 			// quantifiers; we use a fresh array equal to old except at the written cell and,
 			// for the fresh store, constrained pointwise through a quantifier-free frame:
 			//   H' = store(H, elm(resStore, resOff+len), v)  and for the fresh store the cells
 			//   elm(fr, k) for k < len equal elm(s.store, s.off + k)  (stated with a forall)
-			idx := app("elm", res.Fs[0].S, c.addI(res.Fs[1].S, s.Fs[2].S))
+			idx0 := app("elm", s.Fs[0].S, c.addI(s.Fs[1].S, s.Fs[2].S))
+			idxF := app("elm", fr, c.idxToInt(s.Fs[2].S))
 			nh := c.fresh("H")
 			c.declare(nh, fmt.Sprintf("(Array Ref %s)", srt))
 			c.assume(st, sAnd(
-				app("=", app("select", nh, idx), fl[i].S),
-				fmt.Sprintf("(forall ((r Ref)) (! (=> (not (= (rootid r) (rootid %s))) (= (select %s r) (select %s r))) :pattern ((select %s r))))", fr, nh, old, nh),
-				fmt.Sprintf("(forall ((r Ref)) (! (=> (and (= (rootid r) (rootid %s)) %s (not (= r %s))) (= (select %s r) (select %s r))) :pattern ((select %s r))))", fr, inPlace, idx, nh, old, nh),
-				fmt.Sprintf("(forall ((k Int)) (! (=> (and (not %s) (<= 0 k) (< k %s)) (= (select %s (elm %s k)) (select %s (elm %s (+ %s k))))) :pattern ((select %s (elm %s k)))))",
-					inPlace, s.Fs[2].S, nh, fr, old, s.Fs[0].S, s.Fs[1].S, nh, fr),
+				// in place: exactly one cell of the shared backing array is written
+				sImp(inPlace, sEq(nh, app("store", old, idx0, fl[i].S))),
+				// reallocated: the fresh array holds a copy plus the new element; nothing else moves
+				sImp(sNot(inPlace), sAnd(
+					app("=", app("select", nh, idxF), fl[i].S),
+					fmt.Sprintf("(forall ((r Ref)) (! (=> (not (= (rootid r) (rootid %s))) (= (select %s r) (select %s r))) :pattern ((select %s r))))", fr, nh, old, nh),
+					fmt.Sprintf("(forall ((k Int)) (! (=> (and (<= 0 k) (< k %s)) (= (select %s (elm %s k)) (select %s (elm %s (+ %s k))))) :pattern ((select %s (elm %s k)))))",
+						c.idxToInt(s.Fs[2].S), nh, fr, old, s.Fs[0].S, c.idxToInt(s.Fs[1].S), nh, fr),
+				)),
 			))
 			st.heap[l.comp] = nh
 			st.hbound[l.comp] = "$cur"
